@@ -77,7 +77,7 @@ def main():
             for seed in seeds:
                 t0 = time.time()
                 rc, out = sh([os.path.join(VERIF, 'check'), c, '--tier', tier, '--repo', scratch, '--no-evidence', '--seed', str(seed)],
-                             cwd=VERIF, timeout=7200)
+                             cwd=VERIF, timeout=7200, env=dict(os.environ, PV_TIMEOUT=os.environ.get('PV_TIMEOUT', '150' if tier == 'quick' else '2700')))
                 keys = re.findall(r'key=(\S+)', out)
                 res['checks'][f'{c}@{tier}/seed{seed}'] = dict(rc=rc, keys=keys[:8], wall=round(time.time() - t0, 1),
                                                               tail=out[-300:] if rc != 1 else '')
